@@ -1418,9 +1418,23 @@ void psPkcs5Pbkdf2(unsigned char *password, uint32 pLen,
     uint32 blkno;
     unsigned long stored, left, i;
     unsigned char buf[2][SHA1_HASH_SIZE];
+    unsigned char hashedPw[SHA1_HASH_SIZE];
     psHmacSha1_t hmac;
+    psSha1_t md;
 
     psAssert(password && salt && key && kLen);
+
+    /* psHmacSha1Init() only supports keys up to the SHA-1 block size
+       (64 bytes). Per RFC 2104 a longer HMAC key is replaced by its hash. */
+    if (pLen > 64)
+    {
+        psSha1PreInit(&md);
+        psSha1Init(&md);
+        psSha1Update(&md, password, pLen);
+        psSha1Final(&md, hashedPw);
+        password = hashedPw;
+        pLen = SHA1_HASH_SIZE;
+    }
 
     left   = kLen;
     blkno  = 1;
@@ -1461,6 +1475,7 @@ void psPkcs5Pbkdf2(unsigned char *password, uint32 pLen,
     }
 
     memset_s(buf, SHA1_HASH_SIZE * 2, 0x0, SHA1_HASH_SIZE * 2);
+    memset_s(hashedPw, sizeof(hashedPw), 0x0, sizeof(hashedPw));
     memset_s(&hmac, sizeof(psHmacSha1_t), 0x0, sizeof(psHmacSha1_t));
 }
 # endif /* USE_HMAC && USE_SHA1 */
